@@ -183,47 +183,10 @@ func checkC11(c *Ctx) {
 	}
 
 	// R4
-	ru4 := c.R.Rule("C11-R4", "the per-packet step reports 'stop' only on paths where decoding or processing returned an error, and 'continue' only where both succeeded", "E1 path atoms", 1)
-	dec := c.cm(ru4, pkgDecoder, "Sync", "Decode")
-	proc := c.im(ru4, "wasp", "PacketProcessor", "Process")
-	if dec != nil && proc != nil {
-		var step *ssa.Function
-		for _, f := range c.P.ModFuncs() {
-			if len(core.CallsTo(f, dec)) > 0 && len(core.CallsTo(f, proc)) > 0 {
-				step = f
-			}
-		}
-		if ru4.Anchor(step != nil, "the function that decodes one packet and dispatches it") {
-			c.R.Fn(c.fname(step))
-			paths, err := core.EnumPaths(step, core.PathOpts{})
-			if err != nil {
-				ru4.Undecided("paths of "+c.fname(step), c.where(step, step), err.Error())
-			} else {
-				ru4.Evals(len(paths))
-				bad := ""
-				for _, p := range paths {
-					r, ok := p.Exit.(*ssa.Return)
-					if !ok || len(r.Results) != 1 {
-						continue
-					}
-					k, ok := p.ResolveMem(r.Results[0]).(*ssa.Const)
-					if !ok {
-						bad = "cannot decide the result on path " + fmtPath(p, c.P)
-						continue
-					}
-					cont := k.Value.String() == "true"
-					failed := errorNonNilOnPath(p)
-					if cont && failed {
-						bad = "the loop continues after a decode/processing error"
-					}
-					if !cont && !failed {
-						bad = "the session is ended on a path where neither decoding nor processing failed: " + fmtPath(p, c.P)
-					}
-				}
-				ru4.Check(bad == "", "stop ⇔ error in "+c.fname(step), c.where(step, step), "consistent on all paths", bad)
-			}
-		}
-	}
+	c.ruleStepStopsOnlyOnError("C11-R4")
+	dec := c.P.MethodObj(pkgDecoder, "Sync", "Decode")
+	proc := c.P.IfaceMethod("wasp", "PacketProcessor", "Process")
+	_ = dec
 
 	// R5
 	ru5 := c.R.Rule("C11-R5", "bookkeeping: a successful Subscriptions.Create(id, f) is followed by Session.AddTopic(f) with the same value; Subscriptions.Delete(id, f) in the dispatcher by Session.RemoveTopic(f)", "E1 order within the loop iteration + E3", 2)
